@@ -6,7 +6,7 @@ CKTYPES = [0, 1, 2, 3, 15]
 KINDS = ["eof", "finished", "ack", "metadata", "nak", "prompt", "keepalive", "filedata"]
 FS_STATUS = {0: [0, 1, 15], 1: [0, 1, 15], 2: [0, 1, 2, 3, 15], 3: [0, 1, 2, 3, 15], 4: [0, 1, 2, 3, 15], 5: [0, 1, 15],
              6: [0, 1, 2, 15], 7: [0, 2, 15], 8: [0, 2, 15]}
-NAMES = ["", "a", "ä.txt", "dir/file.bin", "日本語", "x" * 40, "/data/cfdp/f.bin", "log.cfdp"]
+NAMES = ["", "a", "ä.txt", "dir/file.bin", "日本語", "x" * 40, "/data/cfdp/f.bin", "log.cfdp", "\ufeffnotes.txt", "a\ufeffb", "tab\there", "nul\x00in"]
 
 
 def classify(e):
